@@ -1035,6 +1035,69 @@ def generate(r: random.Random, force_leak: bool = False, unclear: bool = False) 
     return model, tp
 
 
+def _walk_refs(o: Any) -> Iterator[J]:
+    if isinstance(o, dict):
+        if o.get("f") == "id" and "id" in o:
+            yield o
+        for v in o.values():
+            yield from _walk_refs(v)
+    elif isinstance(o, list):
+        for v in o:
+            yield from _walk_refs(v)
+
+
+def add_second_import(r: random.Random, model: J, tp: Topo) -> bool:
+    """Model transformation: one importing layer gets a second IMPORT-REF.  The newly imported
+    library s2 (imported by nobody else) has its import-only IDs renamed IMP.* -> IMP2.*, and
+    some of the importer's DOCREF-less references are re-pointed to the IMP2 objects, so that
+    the importer depends on *both* libraries.  The expectations follow from the model through
+    the generic resolver.  Returns False if the topology has no suitable layers."""
+    sds = [t for t in tp.layers if t["kind"] == "ECU-SHARED-DATA"]
+    if len(sds) < 2:
+        return False
+    imported = {n for t in tp.layers for n in t["imports"]}
+    cands = []
+    for t in tp.layers:
+        if t["kind"] == "ECU-SHARED-DATA" or len(t["imports"]) != 1:
+            continue
+        Lt = _layer_of(model, t["name"])
+        if any(o["id"].startswith("IMP.") for o in Lt["dops"]):
+            continue  # shadowing importer
+        anc = {a["name"] for a in tp.ancestors(t)}
+        for s2 in sds:
+            if s2["name"] not in imported and s2["name"] not in anc and s2["name"] != t["imports"][0]:
+                cands.append((t, s2))
+    if not cands:
+        return False
+    t, s2 = r.choice(cands)
+    L2 = _layer_of(model, s2["name"])
+    def rename(o: Any) -> None:
+        if isinstance(o, dict):
+            if "f" not in o and isinstance(o.get("id"), str) and o["id"].startswith("IMP."):
+                o["id"] = "IMP2." + o["id"][4:]   # a definition (objects, table rows, keys)
+            for v in o.values():
+                rename(v)
+        elif isinstance(o, list):
+            for v in o:
+                rename(v)
+
+    rename({k: v for k, v in L2.items() if k not in ("parents", "imports", "id")})
+    for ref in _walk_refs({k: v for k, v in L2.items() if k not in ("parents", "imports")}):
+        if ref["id"].startswith("IMP.") and not ref.get("dr"):
+            ref["id"] = "IMP2." + ref["id"][4:]
+    Lt = _layer_of(model, t["name"])
+    dr = r.choice([["LAYER", s2["name"]], ["CONTAINER", s2["cont"]]])
+    Lt["imports"].insert(r.randrange(0, 2), rid(tp.lid(s2), dr))
+    t["imports"].append(s2["name"])
+    n = 0
+    for ref in _walk_refs({k: v for k, v in Lt.items() if k not in ("parents", "imports")}):
+        if ref["id"].startswith("IMP.") and not ref.get("dr") and r.random() < 0.5:
+            ref["id"] = "IMP2." + ref["id"][4:]
+            n += 1
+    model["second_import"] = {"importer": t["name"], "library": s2["name"], "repointed": n}
+    return True
+
+
 # ---------------------------------------------------------------------------
 # fault injection: exactly one reference becomes unresolvable
 
